@@ -1,7 +1,7 @@
 (* C03 — property theorems.  Statements only: each is closed by [exact] of a lemma proved in
    coq/C03/SamplerProofs.v, followed by Print Assumptions. *)
 From Coq Require Import QArith Qabs List Bool ZArith Arith.
-From Scenic Require Import C16.RegionAlg C03.Sampler C03.SamplerProofs.
+From Scenic Require Import C16.RegionAlg C03.Sampler C03.SamplerProofs C03.Placement C03.PlacementProofs.
 From Scenic Require C03.PolyChoice C01.ChoiceProofs.
 (* the evaluators of the generated correspondence cases belong to this property's build closure *)
 From Scenic Require C03.Cases.
@@ -171,6 +171,34 @@ Example C03_triangle_choice_example :
 Proof. vm_compute. repeat split. Qed.
 
 (* non-vacuity: two overlapping regions with unequal measures *)
+(* (round 3) placement of mesh regions: centre (optional) -> scale -> rotate -> translate *)
+Theorem C03_unplace_place : forall centre cc s M t v,
+  cols_orthonormal M -> nonzero s -> peq (unplace centre cc s M t (place centre cc s M t v)) v.
+Proof. exact unplace_place. Qed.
+Theorem C03_placed_member : forall (mem : pt -> Prop) centre cc s M t v,
+  (forall a b, peq a b -> mem a -> mem b) -> cols_orthonormal M -> nonzero s ->
+  mem v -> placed mem centre cc s M t (place centre cc s M t v).
+Proof. exact placed_member. Qed.
+Theorem C03_place_centre_shift : forall cc s M t v,
+  peq (place true cc s M t v) (psub (place false cc s M t v) (mulv M (pscale s cc))).
+Proof. exact place_centre_shift. Qed.
+Theorem C03_unplace_recentred : forall cc s M t v,
+  cols_orthonormal M -> nonzero s -> peq (unplace false cc s M t (place true cc s M t v)) (psub v cc).
+Proof. exact unplace_recentred. Qed.
+Theorem C03_recentring_refuted : exists (mem : pt -> Prop) cc s M t v,
+  rotation M /\ nonzero s /\ mem v /\
+  placed mem false cc s M t (place false cc s M t v) /\ ~ placed mem false cc s M t (place true cc s M t v).
+Proof. exact recentring_refuted. Qed.
+Print Assumptions C03_unplace_place.
+Print Assumptions C03_placed_member.
+Print Assumptions C03_recentring_refuted.
+(* non-vacuity: a genuine rotation (3-4-5 about z) with a non-uniform scale satisfies the hypotheses *)
+Example C03_placement_example :
+  let M := mkmat (3#5) (-4#5) 0 (4#5) (3#5) 0 0 0 1 in
+  rotation M /\ nonzero (mkpt 2 3 (1#2)) /\
+  peq (place true (mkpt 1 1 (1#2)) (mkpt 2 3 (1#2)) M (mkpt 10 0 (-1)) (mkpt 2 1 1)) (mkpt (56#5) (8#5) (-3#4)).
+Proof. unfold rotation, cols_orthonormal, nonzero, peq. vm_compute. repeat split; try reflexivity; intro H; discriminate H. Qed.
+
 Example C03_examples :
   let mu := fun a => match a with O => 1 | 1%nat => 2 | _ => 3 end in
   prob (union_tree mu [[0;1]; [1;2]]%nat) 1%nat == (2 # 8) /\
